@@ -109,6 +109,8 @@ def run(ctx):
     ctx.coverage["numeric_attribute_readbacks"] = len(recs)
     ctx.coverage["numeric_attribute_failures"] = len(bad)
     ctx.coverage["evaluations"] += len(recs)
+    import dimlink
+    dimlink.frame_links_stage(ctx, 300 if thorough else 40, 14)
     from props import c16
     ctx.coverage.update(c16.frame_stage(ctx, st, 600 if ctx.tier == "thorough" else 90, "last write wins independently of the objects used, and reopening shows it"))
     return st
